@@ -300,6 +300,20 @@ def gen_venv_layout(root, outside, rng):
         files[f"{sp}/{raw}-{ver}.dist-info/direct_url.json"] = json.dumps({"url": "file://" + src_root, "dir_info": {"editable": True}})
         pth = rng.choice([f"__editable__.{norm}-{ver}.pth", f"_{norm}.pth", f"{norm}.pth", f"__editable__.{raw}-{ver}.pth"])
         files[f"{sp}/{pth}"] = rng.choice(["", "# comment\n", "import sys\n"]) + src_root + "\n"
+    # an editable install whose source root is an ANCESTOR of the workspace (pip install -e of the repository root,
+    # editor opened on a sub-directory): its plugin module is third-party, the workspace's own files are not
+    if not ext_files and rng.random() < 0.6:
+        # (the implementation treats "workspace inside the editable source root" as the project itself: workspace plugin)
+        parent = os.path.dirname(root)
+        add(ext_files, "../upplug.py", "up_fix", "plugin")
+        files[f"{sp}/upproj-0.1.dist-info/entry_points.txt"] = "[pytest11]\nup = upplug\n"
+        files[f"{sp}/upproj-0.1.dist-info/direct_url.json"] = json.dumps({"url": "file://" + parent, "dir_info": {"editable": True}})
+        files[f"{sp}/__editable__.upproj-0.1.pth"] = parent + "\n"
+    # fixtures of a sibling directory (its conftest and a helper only that conftest imports) are invisible from the probes
+    files["sib/__init__.py"] = ""
+    add(files, "sib/sib_helper.py", "ws_sib_helper_fx", "none")
+    files["sib/conftest.py"] = "from .sib_helper import *\n"
+    add(files, "sib/conftest.py", "ws_sibling_fx", "none")
     names = sorted(expect)
     files["test_probe.py"] = "".join(f"def test_p_{nm}({nm}):\n    pass\n\n" for nm in names)
     files["sub/test_probe.py"] = files["test_probe.py"]
@@ -321,12 +335,14 @@ def part_b(ctx, vh, n, n_srv):
         if "panic" in r:
             ctx.violation({"kind": "scan-panicked"}, {"r": r}, files=files)
             continue
+        # the editor opens (re-analyses) the sibling conftest after the scan
+        vh.call(op="analyze", db=db, path=os.path.join(root, "sib/conftest.py"), text=files["sib/conftest.py"])
         raw = vh.call(op="raw", db=db)
         probe = os.path.join(root, "test_probe.py")
         pm = FileModel(files["test_probe.py"], probe)
         for u in pm.usages:
             e = expect[u["name"]]
-            where = os.path.join(root, e["rel"]) if (e["rel"].startswith(".venv") or e["rel"].startswith("editables")) else os.path.join(outside, e["rel"])
+            where = os.path.join(root, e["rel"]) if (e["rel"].startswith(".venv") or e["rel"].startswith("editables")) else os.path.normpath(os.path.join(outside, e["rel"]))
             defs = raw["definitions"].get(u["name"], [])
             a = vh.call(op="goto", db=db, path=probe, line=u["line"] - 1, char=u["start_b"])
             t = a.get("target")
